@@ -222,8 +222,10 @@ def run(ctx: Ctx) -> None:
                        "" if ok else f"'{norm(s)}' reads a defaultdict: a missing key is inserted into the node's metadata "
                                      f"(the other parent's tree is modified by a lookup)")
     ctx.extra["auto_vivifying_attributes"] = auto_attrs
-    if auto_attrs:
-        ctx.floor("C09.R4", n4, 1, "subscript reads of auto-vivifying node attributes")
+    if auto_attrs and n4 == 0:
+        # no subscript read of an auto-vivifying attribute at all (lookups go through .get / membership tests): nothing can insert a key
+        ctx.ob("C09.R4", None, None, "no subscript read of an auto-vivifying node attribute anywhere", True, f"auto-vivifying attributes: {sorted(auto_attrs)}",
+               module="geneticengine/representations/tree")
 
 
 def _is_nested(gcls) -> bool:
